@@ -131,7 +131,7 @@ class LearningSwitch (object):
         if not isinstance(duration, tuple):
           duration = (duration,duration)
         msg = of.ofp_flow_mod()
-        msg.match = of.ofp_match.from_packet(packet)
+        msg.match = of.ofp_match.from_packet(packet, event.port)
         msg.idle_timeout = duration[0]
         msg.hard_timeout = duration[1]
         msg.buffer_id = event.ofp.buffer_id
@@ -142,6 +142,12 @@ class LearningSwitch (object):
         msg.in_port = event.port
         self.connection.send(msg)
 
+    if self.macToPort.get(packet.src, event.port) != event.port:
+      # The host moved.  Entries cached for its old port would keep its later
+      # frames from reaching us (and our table would go stale): remove them.
+      msg = of.ofp_flow_mod(command = of.OFPFC_DELETE)
+      msg.match.dl_src = packet.src
+      self.connection.send(msg)
     self.macToPort[packet.src] = event.port # 1
 
     if not self.transparent: # 2
